@@ -3,6 +3,9 @@
 //
 // case line: <id> <arch> <inst-name|#id> <opts-hex> <extra|-> <nops> <op>... [eo=<EncodingOptions hex>]
 // (eo applies to this one case: the options are added before the call and cleared after it)
+// [base=<hex>|none pad=<n>]: the case is assembled alone in a CodeHolder initialised with this base address (a holder of
+// its own per base, reset before the case), after <n> bytes of padding; the record then carries "off" (offset of the
+// instruction in the section), so that the oracle can compute the address a RIP-relative operand designates.
 #include <asmjit/core.h>
 #include <asmjit/x86.h>
 #include <asmjit/a64.h>
@@ -77,13 +80,14 @@ struct Env {
   uint32_t format_flags = 0;
   bool use_logger = false;
 
+  uint64_t base = Globals::kNoBaseAddress;
   void init(Arch arch) {
     env = Environment(arch);
     reinit();
   }
   void reinit() {
     code.reset(ResetPolicy::kHard);
-    code.init(env);
+    code.init(env, base);
     code.set_error_handler(&eh);
     if (use_logger) {
       logger.set_flags(FormatFlags(format_flags));
@@ -153,6 +157,7 @@ int main(int argc, char** argv) {
     envs[i].init(i == 0 ? Arch::kX86 : Arch::kX64);
   }
 
+  std::map<std::pair<int, uint64_t>, Env*> based_envs;
   std::istream* is = &std::cin;
   std::ifstream f;
   if (in != "-") { f.open(in); is = &f; }
@@ -164,8 +169,33 @@ int main(int argc, char** argv) {
     std::istringstream ss(line);
     std::string id, arch, name, opts_s, extra_s; int nops = 0;
     ss >> id >> arch >> name >> opts_s >> extra_s >> nops;
-    Env& E = envs[arch == "x64" ? 1 : 0];
-    if (++E.cases_since_reset > 1500) E.reinit();
+    Env* Ep = &envs[arch == "x64" ? 1 : 0];
+    // base= / pad=: a holder of its own with a known (or explicitly unknown) base address, reset for this case
+    bool based = false; size_t pad = 0;
+    {
+      size_t bp = line.find(" base=");
+      if (bp != std::string::npos && kind == kAsm && !shared_emitter) {
+        based = true;
+        std::string bv = line.substr(bp + 6, line.find(' ', bp + 6) == std::string::npos ? std::string::npos : line.find(' ', bp + 6) - (bp + 6));
+        uint64_t base = bv == "none" ? Globals::kNoBaseAddress : strtoull(bv.c_str(), nullptr, 16);
+        size_t pp = line.find(" pad=");
+        if (pp != std::string::npos) pad = (size_t)strtoull(line.c_str() + pp + 5, nullptr, 10);
+        std::pair<int, uint64_t> key(arch == "x64" ? 1 : 0, base);
+        auto it = based_envs.find(key);
+        if (it == based_envs.end()) {
+          Env* ne = new Env();
+          ne->kind = kind; ne->validate = validate; ne->use_logger = use_logger; ne->format_flags = format_flags; ne->eh.do_throw = thrower;
+          ne->base = base;
+          ne->init(arch == "x64" ? Arch::kX64 : Arch::kX86);
+          it = based_envs.insert(std::make_pair(key, ne)).first;
+        }
+        else it->second->reinit();
+        if (pad) { std::string nops(pad, char(0x90)); it->second->ap->embed(nops.data(), nops.size()); }
+        Ep = it->second;
+      }
+    }
+    Env& E = *Ep;
+    if (!based && ++E.cases_since_reset > 1500) E.reinit();
     E.use();
     BaseEmitter& a = *E.em();
     Arch A = arch == "x64" ? Arch::kX64 : Arch::kX86;
@@ -300,11 +330,13 @@ int main(int argc, char** argv) {
     if (off1 > off0) out += hexstr(E.ap->buffer_data() + off0, off1 - off0);
     out += "\"";
     if (off1 < off0) out += ",\"shrunk\":1";
+    if (based) { char ob[48]; snprintf(ob, sizeof ob, ",\"off\":%zu", off0); out += ob; }
     if (api_validate) { char vb[64]; snprintf(vb, sizeof vb, ",\"v\":%d,\"iid\":%u", verr, unsigned(inst_id)); out += vb; }
     if (use_logger) { out += ",\"log\":"; out += jstr(std::string(E.logger.data(), E.logger.data_size())); }
     out += "}\n";
     if (out.size() > (1 << 20)) { fwrite(out.data(), 1, out.size(), stdout); out.clear(); }
   }
   fwrite(out.data(), 1, out.size(), stdout);
+  for (auto& kv : based_envs) delete kv.second;
   return 0;
 }
